@@ -119,6 +119,7 @@ structure Cfg where
   bufsize : Nat := 65536
   https : Bool := false            -- TLS: after the TCP connect the handshake runs inside `create_connection`
   closeDelim : Bool := false       -- response body delimited by connection close (no Content-Length, not chunked)
+  early : Bool := false            -- the caller streams `resp.content` and leaves `async with` after the first chunk
   expect100 : Bool := false        -- `Expect: 100-continue`: the body is written only after a 1xx response arrived
   c0 : Nat := 0                    -- `Task.cancelling()` of the calling task when it starts the request
 deriving Repr
@@ -359,8 +360,10 @@ def readBody (cfg : Cfg) (s : St) : St × Option Exc :=
   if s.readErr then (s, some .sockTimeout)          -- `if self._exception is not None: raise`
   else if s.tcCancelled then (s, some .timeout)     -- `_read_nowait: self._timer.assert_timeout()` / `_wait: with self._timer`
   else
+  let got := decide (s.buffered > 0)
   let s := if s.buffered > 0 then consume cfg s else s
-  if s.eof then (finish (releaseConn cfg s) .ok, none)
+  -- `cfg.early`: the caller leaves the `async with` block after its first chunk: `release()` (closes: body unread)
+  if s.eof ∨ (cfg.early ∧ got) then (finish (releaseConn cfg s) .ok, none)
   else ({ s with pc := .body, wake := none, tcBase := s.cancelling }, none)
 
 /-- `ClientResponse.start` resumed with the message; rest of `_request`; user code up to the next suspension -/
